@@ -269,6 +269,8 @@ type Endpoint struct {
 	cutKept []chunk
 	writeErr error // set by a cut: later writes fail like on a reset TCP connection
 	stalled time.Duration // extra delay added to chunks written from now on (stall fault)
+	block   chan struct{} // non-nil: Write does not return (the counterparty has stopped reading, the buffers are full)
+	BlockedWrites int
 
 	Written         [][]byte
 	WrittenAt       []time.Time
@@ -343,8 +345,17 @@ func (e *Endpoint) Read(p []byte) (int, error) {
 
 func (e *Endpoint) Write(p []byte) (int, error) {
 	b := append([]byte(nil), p...)
-	now := time.Now()
 	e.link.w.mu.Lock()
+	for e.block != nil && !e.closed {
+		// a counterparty that has stopped reading: the call returns when it reads again or when the
+		// connection is closed under it
+		blk := e.block
+		e.BlockedWrites++
+		e.link.w.mu.Unlock()
+		<-blk
+		e.link.w.mu.Lock()
+	}
+	now := time.Now()
 	if e.closed {
 		e.WriteAfterClose++
 		e.link.w.mu.Unlock()
@@ -393,6 +404,10 @@ func (e *Endpoint) Close() error {
 	e.closed = true
 	e.ClosedAt = now
 	e.outFIN = true
+	if e.block != nil {
+		close(e.block)
+		e.block = nil
+	}
 	cb := e.OnClose
 	pumped := e.link.Pumped
 	if pumped && !e.dead {
@@ -550,6 +565,25 @@ func (e *Endpoint) SetDead() {
 	e.link.w.mu.Lock()
 	e.dead = true
 	e.out = nil
+	e.link.w.mu.Unlock()
+}
+
+// BlockWrites makes Write on this endpoint block from now on (a counterparty that has stopped reading, with
+// the buffers in between full) until UnblockWrites or Close.
+func (e *Endpoint) BlockWrites() {
+	e.link.w.mu.Lock()
+	if e.block == nil && !e.closed {
+		e.block = make(chan struct{})
+	}
+	e.link.w.mu.Unlock()
+}
+
+func (e *Endpoint) UnblockWrites() {
+	e.link.w.mu.Lock()
+	if e.block != nil {
+		close(e.block)
+		e.block = nil
+	}
 	e.link.w.mu.Unlock()
 }
 
